@@ -382,7 +382,13 @@ func (c *leafCore) prep(ctx context.Context, shared *flyt.SharedStore) (any, err
 		o = Outcome{Out: "err"}
 	}
 	t := s.nextTok()
-	ev := Event{"ev": "prep", "node": c.id, "sok": shared == s.store, "cok": cok, "out": o.Out, "val": 0, "err": 0, "cancel": o.Cancel}
+	seen := 0
+	if shared != nil {
+		if v, ok := shared.Get("last"); ok {
+			seen, _ = v.(int)
+		}
+	}
+	ev := Event{"ev": "prep", "node": c.id, "sok": shared == s.store, "cok": cok, "seen": seen, "out": o.Out, "val": 0, "err": 0, "cancel": o.Cancel}
 	if s.visitLog && shared != nil {
 		cur, _ := shared.Get("visits")
 		l, _ := cur.([]int)
@@ -489,7 +495,10 @@ func (c *leafCore) post(ctx context.Context, shared *flyt.SharedStore, p, x Obs)
 		o = Outcome{Out: "ok", Act: 99}
 	}
 	t := s.nextTok()
-	ev := Event{"ev": "post", "node": c.id, "sok": shared == s.store, "cok": cok, "prep": p.Tok, "pid": p.Same && p.Wrap == "raw" && !p.IsErr,
+	if shared != nil {
+		shared.Set("last", t) // data for the nodes that follow
+	}
+	ev := Event{"ev": "post", "node": c.id, "sok": shared == s.store, "cok": cok, "wrote": t, "prep": p.Tok, "pid": p.Same && p.Wrap == "raw" && !p.IsErr,
 		"exec": x.Tok, "eid": x.Same, "ew": x.Wrap, "eerr": x.IsErr, "eerrtok": x.ErrTok,
 		"out": o.Out, "act": 0, "err": 0, "cancel": o.Cancel}
 	if o.Cancel {
